@@ -436,6 +436,25 @@ func genSignGrid(r *rng, nmax int, p func(string, ...any)) {
 			}
 		}
 	}
+	// one map object shared between the body and the signers / among the signers ("alias")
+	for _, hd := range []string{"H(-;{};-;{})", "H(-;{i64:4=b:31};-;{i64:5=b:01})", "H(-;{i64:3=i64:42};-;{})"} {
+		for _, n := range []int{1, 2, 3} {
+			for _, mixed := range []bool{false, true} {
+				sigs, ss := []string{}, []string{}
+				for i := 0; i < n; i++ {
+					sigs = append(sigs, "cs("+hd+";-)")
+					alg := -7
+					if mixed && i%2 == 1 {
+						alg = -35
+					}
+					ss = append(ss, fmt.Sprintf("T:%d:%d", alg, i+1))
+				}
+				for _, ext := range []string{"-", "01"} {
+					p("sm SM(%s;0102;[%s]) %s [%s] [%s] a alias", hd, strings.Join(sigs, ","), ext, strings.Join(ss, ","), strings.Join(ss, ","))
+				}
+			}
+		}
+	}
 	// many signers: sign, encode, decode, verify
 	for _, n := range []int{15, 16, 17, 23, 24, 25, 40} {
 		sigs, ss := []string{}, []string{}
